@@ -187,7 +187,11 @@ pub(crate) fn inline_def_body(
     params: &ParametersCompiled<IrSpanned<ExprCompiled>>,
     body: &StmtsCompiled,
 ) -> Option<InlineDefBody> {
-    if params.params.len() == 1 && params.params[0].accepts_positional() {
+    // The only parameter must be one which can be filled positionally (not `*, x`).
+    if params.params.len() == 1
+        && params.indices.num_positional == 1
+        && params.params[0].accepts_positional()
+    {
         if let Some(t) = is_return_type_is(body) {
             return Some(InlineDefBody::ReturnTypeIs(t));
         }
